@@ -31,6 +31,8 @@ def lemmas(tier):
                         bound="all argument values in the functions' documented ranges", expect_reach=["R1f.fn"]))
     ls.append(Lemma("R1t.top", "verifHarness_R1t_Top", ["zz_verif_r1a.go"], intr=RyuTopIntrinsics, stop=STOP_WITH_STRCONV,
                     opts={"timeout_ms": 60000},
+                    abstract_witness="the two copies of ryuFtoaShortest hand different arguments to the digit emitter for some values of the (uninterpreted) "
+                                     "helper functions; a float64 on which the printed digits differ exists only if the real helpers take such values",
                     desc="the glue of the repository's ryuFtoaShortest (exact-integer shortcut, bounds, choice of q, exactness flags, admissibility of "
                          "the lower/upper bound with the mantissa-parity terms, round-up hint, decimal exponent) = strconv.ryuFtoaShortest executed "
                          "from the toolchain's SSA, on every mantissa and binary exponent at once; helpers = the same uninterpreted functions on both "
